@@ -106,12 +106,18 @@ impl TzLocation<chrono_tz::Tz> {
             LazyLock::new(tzf_rs::DefaultFinder::new);
 
         static TZ_BY_NAME: LazyLock<HashMap<&str, chrono_tz::Tz>> = LazyLock::new(|| {
+            #[cfg(oh_verif)]
+            crate::verif_hooks::lazy_event("TZ_BY_NAME", "begin");
+
             chrono_tz::TZ_VARIANTS
                 .iter()
                 .copied()
                 .map(|tz| (tz.name(), tz))
                 .collect()
         });
+
+        #[cfg(oh_verif)]
+        crate::verif_hooks::lazy_event("TZ_NAME_FINDER", "gate");
 
         let tz_name = TZ_NAME_FINDER.get_tz_name(coords.lon(), coords.lat());
 
@@ -142,6 +148,9 @@ where
             if let Some(dt) = self.tz.from_local_datetime(&naive).latest() {
                 return dt;
             }
+
+            #[cfg(oh_verif)]
+            crate::verif_hooks::tick(crate::verif_hooks::Site::TzMinuteStep);
 
             naive = naive
                 .checked_add_signed(TimeDelta::minutes(1))
